@@ -41,6 +41,8 @@ class Alphabet:
         # event objects per (position, symbol)
         self.events = [[Kevent(pos, DATA, (1, 2, 3, 4), t, self.codes[ci][1] | q, self.codes[ci][1], q)
                         for (t, ci, q) in self.syms] for pos in range(self.max_depth)]
+        # the same events stamped with DEcreasing timestamps (stream order is the order of arrival, not of the stamps)
+        self.events_desc = [[e._replace(timestamp=1000 - e.timestamp) for e in row] for row in self.events]
 
     def describe(self, hist):
         return [f'tid{t}:{self.codes[ci][0]}:{QN[q]}' for (t, ci, q) in (self.syms[s] for s in hist)]
@@ -80,7 +82,7 @@ def _canon_abstract(parser):
     return tuple(out)
 
 
-def check_history(alpha, hist, from_step=0, collect_state=None, prefilled=False, via_generator=False):
+def check_history(alpha, hist, from_step=0, collect_state=None, prefilled=False, via_generator=False, desc_ts=False):
     """Run one history on a fresh parser with the reference model in lockstep.
     Returns (violation or None, n_emitted, matched_end_seen). Steps < from_step are replayed and modelled
     but not judged (they were judged as part of an earlier history with the same prefix)."""
@@ -88,6 +90,8 @@ def check_history(alpha, hist, from_step=0, collect_state=None, prefilled=False,
     ref = {'ord': {}, 'trace': {}}
     emitted = 0
     matched = 0
+    events = alpha.events_desc if desc_ts else alpha.events
+    unstamp = (lambda ts: 1000 - ts) if desc_ts else (lambda ts: ts)
     last_start = {}
     gen_out = None
     if via_generator:
@@ -99,7 +103,7 @@ def check_history(alpha, hist, from_step=0, collect_state=None, prefilled=False,
         def src():
             for i_, s_ in enumerate(hist):
                 cur[0] = i_
-                yield alpha.events[i_][s_]
+                yield events[i_][s_]
         try:
             for tr in p.feed_generator(src()):
                 if cur[0] in gen_out:
@@ -110,10 +114,10 @@ def check_history(alpha, hist, from_step=0, collect_state=None, prefilled=False,
     for i, s in enumerate(hist):
         t, ci, q = alpha.syms[s]
         name, code, decodable, dom, fragcap = alpha.codes[ci]
-        e = alpha.events[i][s]
+        e = events[i][s]
         judge = i >= from_step
         stray = False
-        before = canon(p) if (judge and q == 2 and not via_generator) else None
+        before = canon(p) if (judge and q == 2 and not via_generator and not desc_ts) else None
         if via_generator:
             got = gen_out.get(i)
         else:
@@ -160,8 +164,8 @@ def check_history(alpha, hist, from_step=0, collect_state=None, prefilled=False,
             return ('unexpected-trace', i, f'emitted {type(got).__name__}'), emitted, matched
         if got is not None:
             kt = got.ktraces
-            pos = [x.timestamp for x in kt]
-            if any(kt[j] is not alpha.events[pos[j]][hist[pos[j]]] for j in range(len(kt)) if pos[j] < len(hist)):
+            pos = [unstamp(x.timestamp) for x in kt]
+            if any(kt[j] is not events[pos[j]][hist[pos[j]]] for j in range(len(kt)) if 0 <= pos[j] < len(hist)):
                 return ('window-holds-foreign-object', i, pos), emitted, matched
             if pos != sorted(set(pos)):
                 return ('window-order-or-duplicate', i, pos), emitted, matched
@@ -242,7 +246,7 @@ class C04(Check):
             'reference model of the statement in lockstep (every maximal history is run; each shorter history is '
             'judged as a prefix exactly once). Cases are distinct by construction (each element of the product is '
             'enumerated once); non-trivial = the history contains at least one END that matches an open START of '
-            'the same code on the same thread. Alphabets marked +gen go through feed_generator (the lazy entry point PyKdebugParser.traces uses) instead of feed(); alphabets marked +map are fed to a parser whose thread map was already populated when it was built. states = distinct canonical window-table states (positions '
+            'the same code on the same thread. Alphabets marked +ts carry decreasing timestamps (stream order is arrival order, not stamp order); alphabets marked +gen go through feed_generator (the lazy entry point PyKdebugParser.traces uses) instead of feed(); alphabets marked +map are fed to a parser whose thread map was already populated when it was built. states = distinct canonical window-table states (positions '
             'abstracted) reached at the end of a history; transitions = real feed() calls.')
     assumptions = (
         'codes used: BSC_getpid/BSC_getuid (ordinary), TRACE_DATA_EXEC/TRACE_STRING_PROC_EXIT (trace domain), '
@@ -255,8 +259,8 @@ class C04(Check):
 
     def plan(self):
         if self.tier == 'quick':
-            return [('A40', 4), ('FRAG', 3), ('T3', 3), ('C7', 4), ('A16+map', 4), ('T3+map', 3), ('SIDE', 3), ('A16+gen', 4), ('C7+gen', 3), ('T3+gen', 3)]
-        return [('A40', 5), ('A16', 6), ('FRAG', 4), ('A48', 4), ('T3', 4), ('C7', 5), ('A40+map', 4), ('T3+map', 4), ('SIDE', 4), ('A40+gen', 4), ('C7+gen', 4), ('T3+gen', 4)]
+            return [('A40', 4), ('FRAG', 3), ('T3', 3), ('C7', 4), ('A16+map', 4), ('T3+map', 3), ('SIDE', 3), ('A16+gen', 4), ('C7+gen', 3), ('T3+gen', 3), ('A16+ts', 4), ('FRAG+ts', 3)]
+        return [('A40', 5), ('A16', 6), ('FRAG', 4), ('A48', 4), ('T3', 4), ('C7', 5), ('A40+map', 4), ('T3+map', 4), ('SIDE', 4), ('A40+gen', 4), ('C7+gen', 4), ('T3+gen', 4), ('A40+ts', 4), ('FRAG+ts', 4)]
 
     def bounds(self):
         return {'spaces': [{'alphabet': a, 'symbols': len(alphabet(a).syms), 'depth': d,
@@ -330,7 +334,7 @@ class C04(Check):
                 while hist[from_step] == prev[from_step]:
                     from_step += 1
             prev = hist
-            bad, emitted, matched = check_history(alpha, hist, from_step, states, prefilled='+map' in a, via_generator='+gen' in a)
+            bad, emitted, matched = check_history(alpha, hist, from_step, states, prefilled='+map' in a, via_generator='+gen' in a, desc_ts='+ts' in a)
             acc.case(nontrivial=matched > 0, transitions=d, outcome=None)
             if emitted:
                 acc.count('histories_emitting_traces')
@@ -350,7 +354,7 @@ class C04(Check):
             self.run_long(('long', case['long'][0], case['long'][1]), acc)
             return [(sig, v['cases'][0][1]) for sig, v in acc.violations.items()]
         alpha = alphabet(case['alphabet'])
-        bad, _, _ = check_history(alpha, tuple(case['history']), 0, None, prefilled='+map' in case['alphabet'], via_generator='+gen' in case['alphabet'])
+        bad, _, _ = check_history(alpha, tuple(case['history']), 0, None, prefilled='+map' in case['alphabet'], via_generator='+gen' in case['alphabet'], desc_ts='+ts' in case['alphabet'])
         return [(bad[0], {'step': bad[1], 'detail': bad[2]})] if bad else []
 
 
